@@ -12,6 +12,8 @@
 * the constants the model uses by name (CHARSET_DEFAULT/UTF8, scrollback maxlen, TermCharset.MAPPING).
 """
 import ast
+import os
+import subprocess
 
 from py2v_core import Tr, Unsupported, find
 from mods.common import parse
@@ -200,10 +202,41 @@ def constants(tree):
     return "\n".join(out) + "\n"
 
 
+PY = "/venv/bin/python"
+PALETTE_SCRIPT = r"""
+import warnings
+warnings.simplefilter("ignore")
+from urwid.display.common import _COLOR_VALUES_256
+print(",".join(str((r << 16) + (g << 8) + b) for r, g, b in _COLOR_VALUES_256))
+"""
+
+
+def palette(repo, tree):
+    """_COLOR_VALUES_256 as packed rgb numbers, dumped by the interpreter that runs the code under test;
+    sgi_to_attrspec's conversion expression is checked to be the packing used here."""
+    fn = find(tree, "sgi_to_attrspec")
+    src = ast.unparse(fn)
+    for side in ("fg", "bg"):
+        want = f"red, green, blue = _COLOR_VALUES_256[{side}]"
+        if want not in src or f"{side} = (red << 16) + (green << 8) + blue" not in src:
+            raise Unsupported(f"sgi_to_attrspec: palette conversion of {side} changed")
+    env = dict(os.environ)
+    env["PYTHONPATH"] = repo
+    env["PYTHONDONTWRITEBYTECODE"] = "1"
+    p = subprocess.run([PY, "-c", PALETTE_SCRIPT], env=env, capture_output=True, text=True, timeout=100)
+    if p.returncode != 0:
+        raise ValueError("palette dump failed: " + p.stderr.strip()[-300:])
+    vals = [int(x) for x in p.stdout.strip().split(",")]
+    if len(vals) != 256:
+        raise Unsupported("_COLOR_VALUES_256 does not have 256 entries")
+    return ("(* display.common._COLOR_VALUES_256[n] packed as (r << 16) + (g << 8) + b *)\n"
+            "Definition color_values_256_gen : list Z :=\n  [" + "; ".join(str(v) for v in vals) + "].\n")
+
+
 def generate(repo):
     rel = "urwid/vterm.py"
     tree = parse(repo, rel)
-    out = [csi_table(tree), dec_map(repo), constants(tree)]
+    out = [csi_table(tree), dec_map(repo), constants(tree), palette(repo, tree)]
     t = TrB({}, {"self.width": "width", "self.height": "height", "self.scrollregion_end": "sr_end",
                  "self.scrollregion_start": "sr_start"}, {},
             {"self.modes.constrain_scrolling": "constrain_scrolling"})
@@ -211,4 +244,4 @@ def generate(repo):
                       [("width", "Z"), ("height", "Z"), ("constrain_scrolling", "bool"), ("sr_start", "Z"),
                        ("sr_end", "Z"), ("x", "Z"), ("y", "Z"), ("ignore_scrolling", "Z")],
                       "constrain_coords_gen", "Z * Z"))
-    return rel + " urwid/display/escape.py", "\n".join(out)
+    return rel + " urwid/display/escape.py urwid/display/common.py", "\n".join(out)
